@@ -68,9 +68,12 @@ def subharnesses(tier):
     subs = []
     for bs in (1, 2, 3, 4):
         for sched in range(8):
-            for crash in (False, True):
+            for crash in (False, True, 'error'):
+                if crash == 'error' and sched not in (0, 2):
+                    continue
                 subs.append(('trace-batch%d-sched%d-%s' % (
-                    bs, sched, 'crash' if crash else 'run'),
+                    bs, sched, {False: 'run', True: 'crash',
+                                'error': 'zkerror'}[crash]),
                     {'kind': 'trace', 'batch': bs, 'sched': sched,
                      'crash': crash}))
     for bs in (1, 2, 3):
@@ -97,17 +100,26 @@ def _shard(inst):
 
 
 def _run_with_crash(S, tree, fn, crash):
+    """crash: False | True (process stops before write k) | 'error' (write k
+    fails with a ZooKeeper error; the archiver may handle it or die)."""
+    import kazoo.exceptions as kx
     if crash:
         tree.crash_at = S.int('crash_before_write', 0, 30)
+        tree.fault = 'error' if crash == 'error' else 'crash'
         tree.armed = True
     try:
         fn()
         if crash:
+            hit = any(e[0] == 'CRASH-BEFORE' for e in tree.log)
             tree.armed = False
-            S.assume(False)       # index beyond the writes of this run
+            S.assume(hit)         # index beyond the writes of this run
+            S.reach('write_error_survived')
     except memzk.Crash:
         tree.armed = False
         S.reach('crashed')
+    except kx.KazooException:
+        tree.armed = False
+        S.reach('write_error_propagated')
     tree.armed = False
 
 
